@@ -36,6 +36,8 @@ THEOREMS = [
     "link_flip_consistent",
     "loopUpdate_consistent",
     "loopUpdate_pres",
+    "loopUpdate_no_panic",
+    "loop_closed_iff_script_sufficed",
     "loop_out_of_fuel",
     "loop_head_exists",
     "reach_flags",
@@ -62,6 +64,12 @@ RULE = ("generic samplers over four interaction families (two-site exchange-type
         "(rejected calls, broken symmetry, missing constant term); timestep vs the four public sub-calls on deep clones. "
         "Non-trivial = the loop changed the configuration or visited >= 2 vertices / a free variable exists / exactly one "
         "composition matches / at least one call accepted; distinct = distinct input line. "
+        "Each replayed loop also carries the consistency of the result (c=) and the hypotheses of Qmc.C04.loopUpdate_pres on the input "
+        "(hyp=: Op.WF, positive matrix elements, periodic world lines), evaluated independently on both sides. "
+        "nonergodic: the two fixed F20 witness samplers ([g,g,g,g] + field on one spin; the same on two spins with an exchange term), "
+        "5 fixed seeds x 500 timesteps, count of off-diagonal single-site operators (seed-independent input; known finding). "
+        "hbtable: generic samplers with heat bath on, 3-5 variables, a 3-variable term (diag / diag_off / full) whose unique maximum sits at "
+        "each of the 8 table indices in turn plus random 1-/2-/3-/4-variable terms; oracle: stored per-bond maxima == max over all 2^k substates. "
         "The diagonal-update kernel the generic sampler composes is re-checked with the harness modes of C08 (traj, prob: random "
         "table Hamiltonians, Metropolis / heat-bath sweeps replayed, slot thresholds bisected) and C02 (tables, sweeps, prob: stored "
         "heat-bath table after random make_*interaction / set_do_heatbath / diagonal_update sequences on Qmc, exact sweeps, thresholds).")
